@@ -20,8 +20,23 @@ MIN = {"quick": {"conv:has_interaction(u,v,t)": 50000, "conv:source-unchanged": 
        "thorough": {"conv:has_interaction(u,v,t)": 1000000, "conv:source-unchanged": 60000, "conv:isolation": 60000, "conv:isolation(structure)": 60000}}
 REQUIRED_CELLS = {t: ("conv:to_undirected", "conv:to_undirected(reciprocal)", "conv:to_directed",
                       "src:reciprocal-overlapping", "src:reciprocal-disjoint", "src:self-loop", "src:isolated",
-                      "form:positional-flag")
+                      "form:positional-flag", "attr:non-string-key")
                   for t in ("quick", "thorough")}
+
+
+class Box(object):
+    """an attribute value that is hashable (by identity) but mutable"""
+
+    def __init__(self, payload):
+        self.payload = payload
+
+    def __eq__(self, other):
+        return isinstance(other, Box) and self.payload == other.payload
+
+    __hash__ = object.__hash__
+
+    def __repr__(self):
+        return "Box(%r)" % (self.payload,)
 
 
 def und_model(m, reciprocal):
@@ -112,12 +127,16 @@ def check_conv(ctx, dn, G, m, name, make, hmodel, alt=None):
                 val.append("mutated")
             if isinstance(val, dict):
                 val["mutated"] = 1
+            if isinstance(val, Box):
+                val.payload.append("mutated")
         d["new-key"] = 1
     for kk, val in H.graph.items():
         if isinstance(val, (list,)):
             val.append("mutated")
         if isinstance(val, dict):
             val["mutated"] = [1]
+        if isinstance(val, Box):
+            val.payload["mutated"] = 1
     H.graph["new-key"] = 1
     ctx.expect("conv:isolation", observe.diff(sG, observe.snapshot(G)), [], dict(detail, mutated="result"))
     sH = observe.snapshot(H)
@@ -178,11 +197,16 @@ def decorate(ctx, dn, G, m):
         G.add_node(lonely, tags=["x", ["y"]], info={"a": [1]})
         m.add_node(lonely, tags=["x", ["y"]], info={"a": [1]})
         ctx.cell("src:isolated")
-    G.add_node(n0, hist=[1, 2, [3]])
-    m.add_node(n0, hist=[1, 2, [3]])
+    G.add_node(n0, hist=[1, 2, [3]], box=Box([1, 2]))
+    m.add_node(n0, hist=[1, 2, [3]], box=Box([1, 2]))
+    if rng.random() < 0.5:
+        G.add_nodes_from([(n0, {7: ["non-string key"]})])
+        m.nodes[n0][7] = ["non-string key"]
+        ctx.cell("attr:non-string-key")
+    G.graph["gbox"] = Box({"k": 1})
     G.graph["meta"] = {"k": [1, 2]}
     G.graph["lst"] = [1, [2]]
-    m.graph = {"meta": {"k": [1, 2]}, "lst": [1, [2]]}
+    m.graph = {"meta": {"k": [1, 2]}, "lst": [1, [2]], "gbox": Box({"k": 1})}
 
 
 def rebuild(ctx, dn, prog, directed):
